@@ -1,2 +1,6 @@
 import Proofs.Eval
 import Proofs.Context
+import Proofs.Complete
+import Proofs.Tokenize
+import Proofs.Parse
+import Proofs.ParseTop
